@@ -45,6 +45,7 @@ class Gen:
         self.readonly: set[int] = set()
         self.scopes: list = []
         self.last_L = None
+        self.must_use = None          # a handle the next terminal has to depend on
         self.fresh_reused = None      # the view carried over at the last epoch boundary (candidate for an immediate update)
         self.last_backward = {}
         # views carried over from an earlier epoch (graph cleared, base lingering until their next use as an operand).  They are
@@ -799,6 +800,9 @@ class Gen:
         r = self.rng
         hs = [h for h in self.live()]
         pick = r.sample(hs, min(len(hs), r.randint(1, 3)))
+        if self.must_use in hs and self.must_use not in pick:
+            pick.append(self.must_use)
+        self.must_use = None
         acc = None
         for h in pick:
             A = self.arr(h)
@@ -1034,6 +1038,27 @@ def gen_program(seed: int, profile: dict) -> list[dict]:
     g = Gen(rng, profile)
     for _ in range(rng.randint(1, profile.get("max_leaves", 2))):
         g.leaf()
+    if rng.random() < profile.get("p_layout_probe", 0.0):
+        # a Fortran-ordered leaf seen through a reshape-type view of its transpose (a view only because of that layout), and
+        # used twice by one operation: its gradient is accumulated from contributions of different memory layouts and must
+        # still be laid out like the leaf for the view's gradient to be a view of it
+        try:
+            x = g.leaf([rng.choice([2, 3]), rng.choice([2, 3])], const=False)
+            if g.prog[-1].get("dt") is None:
+                g.prog[-1]["order"] = "F"
+                g.np.H[x] = np.asfortranarray(g.np.H[x])
+                s1 = {"k": "op", "h": 0, "f": "T", "a": [{"h": x}]}
+                if g.emit(s1, const=False, view=True):
+                    s2 = {"k": "op", "h": 0, "f": rng.choice(["ravel", "reshape"]), "a": [{"h": s1["h"]}]}
+                    if s2["f"] == "reshape":
+                        s2["sh"] = [-1]
+                    g.emit(s2, const=False, view=True)
+                f = rng.choice(["multiply", "add", "subtract"])
+                s3 = {"k": "op", "h": 0, "f": f, "a": [{"h": x}, {"h": x}]}
+                if g.emit(s3, const=False):
+                    g.must_use = s3["h"]
+        except GenSkip:
+            pass
     n_epochs = rng.randint(1, profile.get("max_epochs", 1))
     for ep in range(n_epochs):
         steps = rng.randint(profile.get("min_steps", 2), profile.get("max_steps", 7))
@@ -1164,7 +1189,7 @@ PROFILES = {
                 inplace=["setitem", "setitem", "aug", "uout", "setshape"], w_misc=0.08, misc=["fail"]),
     "c05": dict(p_forder_leaf=0.25, functional=["bin", "bin", "un", "red", "matmul", "gathercopy"], w_func=0.35, w_view=0.3, w_inplace=0.35,
                 max_leaves=2, max_steps=8, p_const_leaf=0.15, w_misc=0.08, misc=["fail"]),
-    "c06": dict(p_forder_leaf=0.25, functional=["bin", "un", "red"], w_func=0.4, w_view=0.6, w_inplace=0.0, max_leaves=2, max_steps=7,
+    "c06": dict(p_layout_probe=0.2, p_forder_leaf=0.25, functional=["bin", "un", "red"], w_func=0.4, w_view=0.6, w_inplace=0.0, max_leaves=2, max_steps=7,
                 p_const_leaf=0.0, w_misc=0.08, misc=["copy"], max_epochs=3, p_keep_stale=0.5, p_reuse_stale=0.7,
                 p_seed=0.55, p_nonscalar_L=0.45, p_repeat_L=0.7, p_seed_view=0.75),
     "c09": dict(functional=["bin", "bin", "un", "red", "matmul"], w_func=0.5, w_view=0.25, w_inplace=0.25, max_leaves=2,
